@@ -250,6 +250,41 @@ def run(ctx):
       ctx.violation('collision:' + kind, '%s maps distinct names %r and %r to %r' % (kind, inv[k], name, path),
                     {'name': name, 'other': inv[k], 'kind': kind, 'hashed': hashed})
     inv[k] = name
+  # ... and on LONG segments: names around every length at which a filesystem limit (NAME_MAX 255, PATH_MAX 4096) could
+  # tempt the mapping into shortening; neighbours differ only in their last character or in one middle character
+  long_names = []
+  for L in (64, 200, 230, 234, 238, 240, 250, 251, 252, 254, 255, 256, 260, 300, 1000, 4090, 5000):
+    for shape in ('%s', 'p.%s', '%s.q', 'p.%s.q'):
+      base = 'a' * L
+      for seg in (base, base[:-1] + 'b', base[:-1] + 'c', base[:L // 2] + 'z' + base[L // 2 + 1:], base + 'a'):
+        long_names.append(shape % seg)
+  long_names = sorted(set(long_names))
+  ldbs = make_dbs(data_dir)
+  linv = {}
+  for kind, hashed, db in ldbs:
+    for name in long_names:
+      try:
+        pth = db.getFilesystemPath(name)
+        again = db.getFilesystemPath(name)
+      except Exception as e:   # noqa
+        ctx.violation('exception:' + kind, '%s getFilesystemPath(<%d-char name>) raised %r' % (kind, len(name), e),
+                      {'name': name, 'kind': kind, 'hashed': hashed})
+        break
+      evals += 1
+      if pth != again:
+        ctx.violation('nondeterministic:' + kind, '%s maps %r... to two different paths' % (kind, name[:20]), {'name': name, 'kind': kind})
+      if not confined(pth, data_dir):
+        ctx.violation('escape:' + kind, '%s maps a %d-char name outside the data directory: %r' % (kind, len(name), pth[:80]),
+                      {'name': name, 'kind': kind, 'hashed': hashed})
+      k = (kind, hashed, pth)
+      if k in linv and linv[k] != name:
+        a, b = linv[k], name
+        ctx.violation('collision:' + kind, '%s maps two distinct untagged names of %d and %d characters (first difference at index %d) '
+                      'to the same path ...%r' % (kind, len(a), len(b), next((i for i, (x, y) in enumerate(zip(a, b)) if x != y), min(len(a), len(b))),
+                                                pth[-40:]), {'name': b, 'other': a, 'kind': kind, 'hashed': hashed})
+        break
+      linv[k] = name
+  ctx.add(long_segment_names=len(long_names))
   cres = core.pmap(create_all, [(k, h, ctx.pick(4, 5)) for k in ('whisper', 'ceres') for h in (True, False)])
   created = 0
   for c, e, bad in cres:
@@ -281,6 +316,11 @@ def replay(path):
     if 'name' in rep:
       p = db.getFilesystemPath(rep['name'])
       ok = confined(p, data_dir)
-      print('%s hashed=%s %r -> %r %s' % (kind, hashed, rep['name'], p, 'confined' if ok else 'ESCAPES'))
+      print('%s hashed=%s %r -> %r %s' % (kind, hashed, rep['name'][:60], p[-80:], 'confined' if ok else 'ESCAPES'))
       bad += 0 if ok else 1
+      if 'other' in rep and rep.get('hashed', hashed) == hashed:
+        q = db.getFilesystemPath(rep['other'])
+        same = p == q
+        print('   other name %r -> %r %s' % (rep['other'][:60], q[-80:], 'SAME PATH' if same else 'distinct'))
+        bad += 1 if same else 0
   return 1 if bad else 0
